@@ -508,6 +508,10 @@ fn value_palette() -> Vec<Val> {
         Val::Dur(Duration::new(86399, 0)),
         Val::Dur(Duration::new(838 * 3600 + 59 * 60 + 59, 999_999_000)),
         Val::Dur(Duration::new(25 * 3600, 0)),
+        Val::Dur(Duration::new(86400, 0)),
+        Val::Dur(Duration::new(34 * 86400, 0)),
+        Val::Dur(Duration::new(2 * 86400, 7000)),
+        Val::Myc(MV::Time(false, 3, 0, 0, 0, 0)),
         Val::Myc(MV::Int(-1)),
         Val::Myc(MV::Int(300)),
         Val::Myc(MV::Int(i64::MAX)),
@@ -590,6 +594,206 @@ impl Family for TypeMatrix {
     }
 }
 
+use msql_srv::ToMysqlValue;
+
+/// every second of 0..=838:59:59 x microseconds, every calendar date, every second of a day:
+/// encoded by the real to_mysql_bin and decoded by the column type
+struct TemporalBin;
+const USB: [u32; 3] = [0, 1, 999_999];
+impl Family for TemporalBin {
+    fn name(&self) -> String {
+        "temporal-exhaustive-binary".into()
+    }
+    fn len(&self) -> u64 {
+        839 + 10000 + 24
+    }
+    fn run(&self, idx: u64, st: &mut Stats) -> Result<(), Violation> {
+        st.nontrivial += 1;
+        let mut n = 0u64;
+        let check = |v: &Val, ty: u8, ct: ColumnType| -> Result<(), Violation> {
+            let c = col("c", ct, ColumnFlags::empty());
+            let mut buf = Vec::with_capacity(16);
+            match guarded(|| v.to_mysql_bin(&mut buf, &c)) {
+                Ok(Ok(())) => {}
+                Ok(Err(e)) => return Err(Violation::new("temporal-refused", format!("{} into {:?}: refused: {}", val_short(v), ct, e))),
+                Err((l, m)) => return Err(Violation::new(panic_key(&l, &m), format!("{} into {:?}: panicked at {}: {}", val_short(v), ct, l, m))),
+            }
+            let mut cur = Cur::new(&buf);
+            let got = parse_bin_value(&mut cur, ty, 0).map_err(|e| Violation::new("temporal-undecodable", format!("{} into {:?}: {}", val_short(v), ct, e)))?;
+            if cur.left() != 0 {
+                return Err(Violation::new("temporal-trailing-bytes", format!("{} into {:?}: {} trailing bytes", val_short(v), ct, cur.left())));
+            }
+            let want = expected_cell(v, ty, false).unwrap();
+            // the length form may be any legal one that represents the same value
+            let same = match (&got, &want) {
+                (BinVal::Date(_, y, mo, d, h, mi, s, us), BinVal::Date(_, y2, mo2, d2, h2, mi2, s2, us2)) => (y, mo, d, h, mi, s, us) == (y2, mo2, d2, h2, mi2, s2, us2),
+                (BinVal::Time(_, ng, d, h, m, s, us), BinVal::Time(_, ng2, d2, h2, m2, s2, us2)) => (ng, d, h, m, s, us) == (ng2, d2, h2, m2, s2, us2),
+                _ => false,
+            };
+            if !same {
+                return Err(Violation::new(format!("temporal-differs:{:#04x}", ty), format!("{} into {:?}: the client decodes {:?}", val_short(v), ct, got)));
+            }
+            let (v2, _) = second::bin_value(&buf, ty, 0).map_err(|e| Violation::new("second-opinion", e))?;
+            if !bin_matches_second(&got, &v2) {
+                return Err(Violation::new("decoders-disagree", format!("{}: refwire {:?}, mysql_common {:?}", val_short(v), got, v2)));
+            }
+            Ok(())
+        };
+        if idx < 839 {
+            let h = idx;
+            for m in 0..60u64 {
+                for sec in 0..60u64 {
+                    for us in USB {
+                        check(&Val::Dur(Duration::new(h * 3600 + m * 60 + sec, us * 1000)), 0x0b, ColumnType::MYSQL_TYPE_TIME)?;
+                        n += 1;
+                    }
+                }
+            }
+            st.add("binary_durations", n);
+        } else if idx < 10839 {
+            let y = (idx - 839) as i32;
+            let mut d = NaiveDate::from_ymd_opt(y, 1, 1).unwrap();
+            while d.year() == y {
+                check(&Val::Date(d), 0x0a, ColumnType::MYSQL_TYPE_DATE)?;
+                n += 1;
+                if d.day() == 1 || d.day() == 29 {
+                    let us = USB[(d.ordinal() % 3) as usize];
+                    let dt = d.and_hms_micro_opt(d.ordinal() % 24, d.month() * 4, d.day(), us).unwrap();
+                    check(&Val::DateTime(dt), 0x0c, ColumnType::MYSQL_TYPE_DATETIME)?;
+                    check(&Val::DateTime(dt), 0x07, ColumnType::MYSQL_TYPE_TIMESTAMP)?;
+                    n += 2;
+                }
+                d = match d.succ_opt() {
+                    Some(x) => x,
+                    None => break,
+                };
+            }
+            st.add("binary_dates", n);
+        } else {
+            let h = (idx - 10839) as u32;
+            let base = NaiveDate::from_ymd_opt(2023, 12, 31).unwrap();
+            for m in 0..60 {
+                for sec in 0..60 {
+                    for us in USB {
+                        check(&Val::DateTime(base.and_hms_micro_opt(h, m, sec, us).unwrap()), 0x0c, ColumnType::MYSQL_TYPE_DATETIME)?;
+                        n += 1;
+                    }
+                }
+            }
+            st.add("binary_times_of_day", n);
+        }
+        st.evals += n.saturating_sub(1);
+        Ok(())
+    }
+    fn describe(&self, idx: u64) -> J {
+        if idx < 839 {
+            json!({"every_second_of_duration_hour": idx, "microseconds": USB})
+        } else if idx < 10839 {
+            json!({"every_day_of_year": idx - 839})
+        } else {
+            json!({"every_second_of_hour": idx - 10839})
+        }
+    }
+}
+
+/// a refused cell followed by a replacement for the same column: the row must carry the
+/// values that were accepted
+struct Recover;
+impl Recover {
+    fn bads() -> Vec<(Val, &'static str)> {
+        vec![
+            (Val::Null, "NULL into NOT NULL"),
+            (Val::Str("text".into()), "string into an integer column"),
+            (Val::I64(i64::MAX), "integer beyond the column"),
+            (Val::Myc(MV::Date(2021, 13, 1, 0, 0, 0, 0)), "invalid generic date"),
+            (Val::Myc(MV::Time(true, 0, 1, 0, 0, 0)), "negative generic time"),
+            (Val::F64(1.5), "double into an integer column"),
+        ]
+    }
+}
+impl Family for Recover {
+    fn name(&self) -> String {
+        "refused-cell-then-replacement".into()
+    }
+    fn len(&self) -> u64 {
+        (Self::bads().len() * 4 * 2) as u64
+    }
+    fn run(&self, idx: u64, st: &mut Stats) -> Result<(), Violation> {
+        let bads = Self::bads();
+        let d = digits(idx, &[bads.len() as u64, 4, 2]);
+        let (bad, what) = bads[d[0] as usize].clone();
+        let pos = d[1] as usize;
+        let second_row = d[2] == 1;
+        st.nontrivial += 1;
+        st.bump("recoveries");
+        let cols: Arc<Vec<Column>> = Arc::new((0..4).map(|i| col(&format!("c{}", i), ColumnType::MYSQL_TYPE_LONG, ColumnFlags::NOT_NULL_FLAG)).collect());
+        let mut prog = vec![WOp::Start(cols.clone())];
+        if second_row {
+            prog.push(WOp::WriteRow((0..4).map(|i| Val::I32(100 + i)).collect()));
+        }
+        for i in 0..4 {
+            if i == pos {
+                prog.push(WOp::WriteColOr(bad.clone(), Val::I32(-7)));
+            } else {
+                prog.push(WOp::WriteCol(Val::I32(10 + i as i32)));
+            }
+        }
+        prog.push(WOp::EndRow);
+        prog.push(WOp::Finish);
+        let conv = Conv::new(vec![ClientCmd::new(with_byte(COM_STMT_PREPARE, b"id=1 p=0")), ClientCmd::new(cmd_execute(1, 0, 1, &[])), ping()]);
+        let s = conv.stream();
+        let stream = Arc::new(s.bytes);
+        let mut sim = sim_for(&stream, vec![]);
+        sim.log_ops = false;
+        let prog = Arc::new(prog);
+        let o = run_conn(sim, ConnCfg::new(Box::new(move |_, cb| match cb {
+            Cb::Prepare(_) => Behavior::PrepReply { id: 1, params: param_cols(0), cols: param_cols(0) },
+            Cb::Execute { .. } => Behavior::Prog(prog.clone()),
+            _ => Behavior::Silent,
+        })));
+        if let ConnResult::Panic(l, m) = &o.res {
+            return Err(Violation::new(panic_key(l, m), format!("{} at column {}: run_on panicked at {}: {}", what, pos, l, m)));
+        }
+        let first_refused = o.calls.iter().any(|c| c.res.as_ref().err().map(|e| e == "first alternative refused").unwrap_or(false));
+        if !first_refused {
+            return Err(Violation::new("bad-cell-accepted", format!("{} at column {}: the write was accepted", what, pos)));
+        }
+        let hard_err = o.calls.iter().any(|c| c.res.as_ref().err().map(|e| e != "first alternative refused").unwrap_or(false));
+        if hard_err {
+            // the implementation refuses to continue the row: acceptable, as long as nothing
+            // malformed was sent
+            st.bump("recovery_not_supported");
+            return match decode_all(&o.sim.out, &conv, &s.last_seq, 2, true) {
+                Ok(_) => Ok(()),
+                Err(e) if e.contains("server output ends where") => Ok(()),
+                Err(e) => Err(Violation::new("refused-but-emitted", e)),
+            };
+        }
+        if !o.res.is_ok() {
+            return Err(Violation::new("result-not-ok", format!("{} at column {}: run_on returned {}", what, pos, o.res.short())));
+        }
+        let dd = decode_all(&o.sim.out, &conv, &s.last_seq, 3, false).map_err(|e| Violation::new("row-undecodable", format!("{} at column {}: {}", what, pos, e)))?;
+        match &dd.replies[1][..] {
+            [Unit::ResultSet { rows, .. }] if rows.len() == 1 + second_row as usize => {
+                let r = rows.last().unwrap();
+                for i in 0..4 {
+                    let want = if i == pos { -7 } else { 10 + i as i64 };
+                    if r[i] != Cell::Bin(BinVal::Int(want)) {
+                        return Err(Violation::new("recovered-row-differs", format!("{} at column {} then replacement: client decodes {:?}", what, pos, r)));
+                    }
+                }
+            }
+            other => return Err(Violation::new("recovered-row-missing", format!("{} at column {}: reply {:?}", what, pos, other.len()))),
+        }
+        Ok(())
+    }
+    fn describe(&self, idx: u64) -> J {
+        let bads = Self::bads();
+        let d = digits(idx, &[bads.len() as u64, 4, 2]);
+        json!({"refused_value": bads[d[0] as usize].1, "column": d[1], "after_a_good_row": d[2] == 1})
+    }
+}
+
 pub fn build(quick: bool) -> Check {
     let mut ns: Vec<usize> = (13..=70).collect();
     ns.extend([127, 128, 129, 255, 256, 257, 300, 511, 512, 513, 1000]);
@@ -599,12 +803,12 @@ pub fn build(quick: bool) -> Check {
     Check {
         id: "C07",
         level: "model_checking",
-        rule: format!("binary resultsets through the real run_on, decoded from the advertised column definitions by refwire and cell by cell by mysql_common's BinValue: column counts 1..{} x all 2^n NULL patterns (three rows: pattern, complement, pattern) with 12 cycling column types of different widths; column counts up to 1000 with structured patterns (none, all, every single NULL / non-NULL, alternations, prefixes/suffixes ending around every multiple of 8); NULL into NOT NULL for all patterns of <= 6 columns x 4 flag placements; the matrix of {} value sources x all 31 column types x signedness x NOT NULL. Oracle: decoded cells equal the written values, bitmap bits = NULL cells exactly, natural pairings accepted, anything accepted is exact, mismatches refused without emitting undecodable output. Non-trivial = bitmap crosses a byte boundary or a type pairing the unit tests never make.", if quick {12} else {14}, value_palette().len()),
+        rule: format!("binary resultsets through the real run_on, decoded from the advertised column definitions by refwire and cell by cell by mysql_common's BinValue: column counts 1..{} x all 2^n NULL patterns (three rows: pattern, complement, pattern) with 12 cycling column types of different widths; column counts up to 1000 with structured patterns (none, all, every single NULL / non-NULL, alternations, prefixes/suffixes ending around every multiple of 8); NULL into NOT NULL for all patterns of <= 6 columns x 4 flag placements; the matrix of {} value sources x all 31 column types x signedness x NOT NULL; at the to_mysql_bin seam every second of 0..838:59:59 x 3 microsecond values as TIME, every calendar date of years 0..9999 as DATE, every second of a day x 3 microsecond values as DATETIME; a refused cell (NULL into NOT NULL, wrong type, out of range, invalid generic date/time) at each column followed by a replacement value. Oracle: decoded cells equal the written values, bitmap bits = NULL cells exactly, natural pairings accepted, anything accepted is exact, mismatches refused without emitting undecodable output. Non-trivial = bitmap crosses a byte boundary or a type pairing the unit tests never make.", if quick {12} else {14}, value_palette().len()),
         assumptions: vec!["integer range rules are C15's; here an accepted integer must be exact".into()],
         bounds: json!({"exhaustive_null_patterns_up_to_columns": if quick {12} else {14}, "max_columns": 1000}),
         exhaustive: true,
         caps_hit: vec![],
-        families: vec![Box::new(AllPatterns { max_n: if quick { 12 } else { 14 } }), Box::new(Structured { ns }), Box::new(NotNull), Box::new(TypeMatrix { vals: value_palette() })],
-        required: vec!["bitmaps_crossing_a_byte", "structured_patterns", "null_into_not_null", "matrix_refused", "matrix_accepted"],
+        families: vec![Box::new(AllPatterns { max_n: if quick { 12 } else { 14 } }), Box::new(Structured { ns }), Box::new(NotNull), Box::new(TypeMatrix { vals: value_palette() }), Box::new(TemporalBin), Box::new(Recover)],
+        required: vec!["bitmaps_crossing_a_byte", "structured_patterns", "null_into_not_null", "matrix_refused", "matrix_accepted", "binary_durations", "binary_dates", "binary_times_of_day", "recoveries"],
     }
 }
